@@ -31,6 +31,8 @@ type ConcSummary struct {
 	Unstable       int      `json:"results_changed_by_a_later_call"`
 	UnstableSample []string `json:"unstable_sample,omitempty"`
 	ReaderCases    int      `json:"cases_through_parsereader"`
+	Touched        int      `json:"parses_that_wrote_to_the_callers_buffer"`
+	TouchedSample  []string `json:"touched_sample,omitempty"`
 }
 
 func digestResult(r *Result) string {
@@ -118,6 +120,12 @@ func MainConcurrent(casesFile, outFile string, goroutines, iters int, canary boo
 			sum.Unstable++
 			if len(sum.UnstableSample) < 3 {
 				sum.UnstableSample = append(sum.UnstableSample, fmt.Sprintf("case %s pkg %s input %q: %s", c.ID, c.Pkg, c.Input, r.Unstable))
+			}
+		}
+		if r.Touched != "" {
+			sum.Touched++
+			if len(sum.TouchedSample) < 3 {
+				sum.TouchedSample = append(sum.TouchedSample, fmt.Sprintf("case %s pkg %s: %s", c.ID, c.Pkg, r.Touched))
 			}
 		}
 		base[i] = digestResult(r)
